@@ -341,6 +341,9 @@ RULE = ("outcome causes (normal/custom stop, stop racing running workers, raise 
 from vmc.tables import _ROUND6 as _R6  # noqa: E402
 
 RULE += _R6["C04"]
+from vmc.tables import _ROUND7 as _R7  # noqa: E402
+
+RULE += _R7["C04"]
 
 
 
